@@ -156,7 +156,10 @@ type gorun struct {
 }
 
 // runList performs one goroutine's list.
-func runList(list []SCall, env *Env, rt *roundTypes) *gorun {
+// alone: the reference run. A struct write is then made on types NO cache has seen (new types per call,
+// same text: they differ by a tag only), i.e. exactly "the call run alone": plans cached by other
+// calls, in whatever order the goroutines got there, must not show.
+func runList(list []SCall, env *Env, rt *roundTypes, alone bool) *gorun {
 	res := &gorun{}
 	pool := &poolSubject{env: env}
 	priv := map[string]Subject{}
@@ -187,7 +190,11 @@ func runList(list []SCall, env *Env, rt *roundTypes) *gorun {
 				senBuf = append(senBuf, pending{i, o.Live, o.LiveText})
 			}
 		case "struct":
-			o = rt.exec(&sc.Call)
+			if alone {
+				o = newRoundTypes(len(rt.outer)).exec(&sc.Call)
+			} else {
+				o = rt.exec(&sc.Call)
+			}
 		default:
 			s := priv[sc.Subject]
 			if s == nil {
@@ -240,7 +247,7 @@ func (run *Run) StressRound(seed uint64, round, goroutines, calls int, withSenBy
 		go func(g int) {
 			defer wg.Done()
 			<-start
-			conc[g] = runList(lists[g], env, rt)
+			conc[g] = runList(lists[g], env, rt, false)
 		}(g)
 	}
 	close(start)
@@ -250,7 +257,7 @@ func (run *Run) StressRound(seed uint64, round, goroutines, calls int, withSenBy
 	}
 	evals := 0
 	for g := 0; g < goroutines; g++ {
-		seq := runList(lists[g], env, rt)
+		seq := runList(lists[g], env, rt, true)
 		for i := range lists[g] {
 			evals++
 			sc := &lists[g][i]
@@ -500,14 +507,12 @@ func (run *Run) RaceStep(emit func(lib.Finding)) {
 	}
 }
 
-// RunC08Child is the in-process part of the run: the witness schedules and the stress rounds. It runs
+// RunC08Child is the in-process part of the run: the stress rounds. It runs
 // in a child process of the harness: a Go runtime fatal error ("concurrent map read and map write",
 // "all goroutines are asleep") cannot be recovered and would otherwise take the harness with it.
 func (run *Run) RunC08Child() {
 	rep := run.Rep
 	emit := func(fd lib.Finding) { rep.Add(fd) }
-	n := run.Witness(emit)
-	rep.AddEval(int64(n), 4)
 	rounds, goroutines, calls := 100, 16, 40
 	if run.Tier == "thorough" {
 		rounds, calls = 1500, 60
@@ -531,6 +536,11 @@ func (run *Run) RunC08(self, knownPath string) {
 		"private instances) at the same time; every result is compared with the same list run alone, every value the package-level functions returned is re-inspected afterwards; " +
 		"the two-goroutine schedule of the Lean witness is replayed per pooled API; the same scenarios run under the Go race detector"
 	emit := func(fd lib.Finding) { rep.Add(fd) }
+	// the deterministic parts run here: what they find must not be lost when the stress process dies
+	n := run.RegistryClosure(emit)
+	rep.AddEval(int64(n), int64(n))
+	n = run.Witness(emit)
+	rep.AddEval(int64(n), 4)
 	tmp := filepath.Join(run.Verif, ".build", fmt.Sprintf("c08_child_%d.json", os.Getpid()))
 	_ = os.Remove(tmp)
 	defer os.Remove(tmp)
@@ -617,6 +627,8 @@ func (run *Run) ReplayC08(path string) error {
 	switch fd.Replay.Scenario {
 	case "witness":
 		run.Witness(emit)
+	case "registry-closure":
+		run.RegistryClosure(emit)
 	case "race":
 		run.RaceStep(emit)
 	default:
